@@ -988,11 +988,11 @@ v("d74-polars-blocks-pasted-by-position", "C17", PM,
 v("d75-sqlite-native-percent", "C05", "SQLite.py",
   '        f" ELSE ({e0} - FLOOR({e0} / (1.0 * {e1})) * {e1}) END)"\n', '        f" ELSE ({e0} % {e1}) END)"\n')
 v("d85-sqlite-modulo-through-double", "C05", "SQLite.py",
-  "        f\"(CASE WHEN (typeof({e0}) = 'integer') AND (typeof({e1}) = 'integer')\"\n        f\" THEN (({e0} % {e1}) + (CASE WHEN (({e0} % {e1}) != 0) AND (({e0} < 0) != ({e1} < 0)) THEN {e1} ELSE 0 END))\"\n        f\" ELSE ({e0} - FLOOR({e0} / (1.0 * {e1})) * {e1}) END)\"\n",
+  "        f\"(CASE WHEN (typeof({e0}) = 'integer') AND (typeof({e1}) = 'integer')\"\n        f\" THEN ((({e0} % {e1}) + {e1}) % {e1})\"\n        f\" ELSE ({e0} - FLOOR({e0} / (1.0 * {e1})) * {e1}) END)\"\n",
   "        f\"({e0} - FLOOR({e0} / (1.0 * {e1})) * {e1})\"\n")
 v("d88-hash-reads-columns-by-label", "C25", EC,
-  "        [type(v).__name__ for v in d.iloc[:, j]]\n        if str(d.iloc[:, j].dtype) == \"object\"\n        else [type(v).__name__ for v in d.iloc[:, j].cat.categories]\n        + [hashlib.sha256(d.iloc[:, j].cat.codes.to_numpy().tobytes()).hexdigest()]\n        for j in range(d.shape[1])\n        if str(d.iloc[:, j].dtype) in (\"object\", \"category\")\n",
-  "        [type(v).__name__ for v in d[c]]\n        if str(d[c].dtype) == \"object\"\n        else [type(v).__name__ for v in d[c].cat.categories]\n        + [hashlib.sha256(d[c].cat.codes.to_numpy().tobytes()).hexdigest()]\n        for c in d.columns\n        if str(d[c].dtype) in (\"object\", \"category\")\n")
+  "        [type(v).__name__ for v in d.iloc[:, j]]\n        if str(d.iloc[:, j].dtype) == \"object\"\n        else _category_cell_types(d.iloc[:, j])\n        for j in range(d.shape[1])\n        if str(d.iloc[:, j].dtype) in (\"object\", \"category\")\n",
+  "        [type(v).__name__ for v in d[c]]\n        if str(d[c].dtype) == \"object\"\n        else _category_cell_types(d[c])\n        for c in d.columns\n        if str(d[c].dtype) in (\"object\", \"category\")\n")
 v("d89-bound-kwargs-not-flattened", "C22", DS,
   "                    if p_def.kind is p_def.VAR_KEYWORD:\n                        # keywords caught by **kwargs are named arguments\n                        extra_keywords = check_kwargs.pop(p_name, {})\n                    elif p_def.kind is p_def.VAR_POSITIONAL:",
   "                    if p_def.kind is p_def.VAR_POSITIONAL:")
@@ -1174,26 +1174,22 @@ v("d160-and-or-numbers-refused", "C05", PB, "            if self.pd.api.types.is
 v("d161-condition-fallback-unread", "C05", PB, "        missing = numpy.asarray(cond.isna(), dtype=bool)\n        if missing.any():\n            # numpy takes nan for a true value\n            values = numpy.array(cond.to_numpy(dtype=object), dtype=object)\n            values[missing] = False\n            return values.astype(bool)\n", "")
 v("d161-where-result-keeps-na", "C05", PB, "    return numpy.where(_true_positions(cond), _plain_branch(a), _plain_branch(b))", "    return numpy.where(_true_positions(cond), a, b)")
 v("d161-if-else-result-keeps-na", "C05", PB, "        res = numpy.where(_true_positions(cond), _plain_branch(a), _plain_branch(b))", "        res = numpy.where(_true_positions(cond), a, b)")
-v("c05-sqlite-mod-sign-of-dividend", "C05", SQ, " THEN (({e0} % {e1}) + (CASE WHEN (({e0} % {e1}) != 0) AND (({e0} < 0) != ({e1} < 0)) THEN {e1} ELSE 0 END))\"", " THEN ({e0} % {e1})\"")
+v("c05-sqlite-mod-sign-of-dividend", "C05", SQ, " THEN ((({e0} % {e1}) + {e1}) % {e1})\"", " THEN ({e0} % {e1})\"")
 v("c05-sqlite-floordiv-truncates", "C05", SQ, " THEN (({e0} / {e1}) - ((({e0} % {e1}) != 0) AND (({e0} < 0) != ({e1} < 0))))\"", " THEN ({e0} / {e1})\"")
-v("c05-sqlite-mod-same-meaning-other-text", "C05", SQ, " THEN (({e0} % {e1}) + (CASE WHEN (({e0} % {e1}) != 0) AND (({e0} < 0) != ({e1} < 0)) THEN {e1} ELSE 0 END))\"", " THEN (({e0} % {e1}) + (CASE WHEN (({e0} % {e1}) != 0) AND ((({e0} % {e1}) < 0) != ({e1} < 0)) THEN {e1} ELSE 0 END))\"", expect="silent")
+v("c05-sqlite-mod-same-meaning-other-text", "C05", SQ, " THEN ((({e0} % {e1}) + {e1}) % {e1})\"", " THEN (({e0} % {e1}) + (CASE WHEN (({e0} % {e1}) != 0) AND ((({e0} % {e1}) < 0) != ({e1} < 0)) THEN {e1} ELSE 0 END))\"", expect="silent")
 
 OSF = "OrderedSet.py"
-v("d162-xor-inherited", "C24", OSF, "    def __xor__(self, other):\n        # order by self, then other (the inherited operator lets another set, e.g. a keys view, answer with a plain set)\n        assert not isinstance(other, str)  # treat string as atomic value, not iterable\n        if not isinstance(other, Iterable):\n            return NotImplemented\n        other = OrderedSet(other)\n        return OrderedSet(\n            [e for e in self if e not in other] + [e for e in other if e not in self]\n        )\n\n", "")
+v("d162-xor-inherited", "C24", OSF, "    def __xor__(self, other):\n        # order by self, then other (the inherited operator lets another set, e.g. a keys view, answer with a plain set)\n        assert not isinstance(other, str)  # treat string as atomic value, not iterable\n        iter(other)  # TypeError for what can not be iterated (None is not the empty set)\n        other = OrderedSet(other)\n        return OrderedSet(\n            [e for e in self if e not in other] + [e for e in other if e not in self]\n        )\n\n", "")
 v("d162-xor-delegates-to-other", "C24", OSF, "        other = OrderedSet(other)\n        return OrderedSet(\n            [e for e in self if e not in other] + [e for e in other if e not in self]\n        )\n", "        return OrderedSet([e for e in self if e not in other]) | (other - self)\n")
 v("d162-xor-twin-ordered-helpers", "C24", OSF, "        return OrderedSet(\n            [e for e in self if e not in other] + [e for e in other if e not in self]\n        )\n", "        left = [e for e in self if e not in other]\n        right = [e for e in other if e not in self]\n        return OrderedSet(left + right)\n", expect="silent")
 
-v("d163-generic-mod-truncates", "C05", SM, "    return f\"MOD(MOD({e0}, {e1}) + {e1p}, {e1})\"", "    return f\"MOD({e0}, {e1})\"")
-v("d163-generic-mod-floored-form-twin", "C05", SM, "    return f\"MOD(MOD({e0}, {e1}) + {e1p}, {e1})\"", "    return f\"(({e0}) - FLOOR(({e0}) / (1.0 * {e1p})) * {e1p})\"", expect="silent")
-v("d163-generic-remainder-truncates", "C05", SM, "    return f\"({e0} - FLOOR({e0} / (1.0 * {e1})) * {e1})\"", "    return f\"MOD({e0}, {e1})\"")
-v("d163-generic-mod-truncates-c02", "C02", SM, "    return f\"MOD(MOD({e0}, {e1}) + {e1p}, {e1})\"", "    return f\"MOD({e0}, {e1})\"")
 v("d164-is-in-missing-is-member", "C05", PB, "        return numpy.asarray(a.isin(b), dtype=bool) & numpy.asarray(a.notna(), dtype=bool)\n", "        return numpy.asarray(a.isin(b), dtype=bool)\n")
-v("d165-literal-through-float", "C14", SOL, "    if isinstance(value, numpy.generic) and (value.dtype.kind in \"biuf\"):\n        value = value.item()  # numpy numbers as the Python number of the same kind (integers stay exact)\n", "")
-v("d166-function-form-swallows-refusal", "C13", PBLK, "                        except (AssertionError, TypeError):\n                            # the plain function form stays for names taking any number of arguments and for None arguments\n                            if (op_name not in _n_ary_function_names) and (\n                                not any(\n                                    isinstance(ai, data_algebra.expr_rep.Value)\n                                    and (ai.value is None)\n                                    for ai in args\n                                )\n                            ):\n                                raise\n", "                        except (AssertionError, TypeError):\n                            pass\n")
-v("d167-sqlite-mod-sum-overflows", "C05", SQ, " THEN (({e0} % {e1}) + (CASE WHEN (({e0} % {e1}) != 0) AND (({e0} < 0) != ({e1} < 0)) THEN {e1} ELSE 0 END))\"", " THEN ((({e0} % {e1}) + {e1}) % {e1})\"")
-v("d168-xor-takes-non-iterable", "C24", OSF, "        if not isinstance(other, Iterable):\n            return NotImplemented\n        other = OrderedSet(other)\n        return OrderedSet(\n", "        other = OrderedSet(other)\n        return OrderedSet(\n")
-v("d169-list-item-array-for-scalar", "C12", ER2, "                and (vi.dtype.kind in \"biuf\")\n                and (not hasattr(vi, \"__len__\"))\n            ):\n                vi = vi.item()  # a numpy number (not an array or a column)", "                and (vi.dtype.kind in \"biuf\")\n            ):\n                vi = vi.item()  # a numpy number (not an array or a column)")
-v("d170-category-cells-not-in-key", "C25", ECF, "        + [hashlib.sha256(d.iloc[:, j].cat.codes.to_numpy().tobytes()).hexdigest()]\n", "")
+v("d165-literal-through-float", "C14", SOL, "    if isinstance(value, numpy.generic) and (value.dtype.kind in \"biuf\"):\n        value = value.item()  # numpy numbers as the Python number of the same kind (integers stay exact)\n        if isinstance(value, numpy.floating):\n            value = float(value)  # numpy.longdouble is its own item\n", "")
+v("d166-function-form-swallows-refusal", "C13", PBLK, "                        except AssertionError:\n                            # the plain function form stays for names taking any number of arguments and for None arguments\n                            if (op_name not in _n_ary_function_names) and (\n                                not any(\n                                    isinstance(ai, data_algebra.expr_rep.Value)\n                                    and (ai.value is None)\n                                    for ai in args\n                                )\n                            ):\n                                raise\n", "                        except AssertionError:\n                            pass\n")
+v("d178-arity-rescued-by-none", "C13", PBLK, "                        except AssertionError:\n                            # the plain function form stays", "                        except (AssertionError, TypeError):\n                            # the plain function form stays")
+v("d168-xor-takes-non-iterable", "C24", OSF, "        iter(other)  # TypeError for what can not be iterated (None is not the empty set)\n", "")
+v("d169-list-item-array-for-scalar", "C12", ER2, "                and (vi.dtype.kind in \"biuf\")\n                and (getattr(vi, \"ndim\", 0) == 0)\n            ):", "                and (vi.dtype.kind in \"biuf\")\n            ):")
+v("d170-category-cells-not-in-key", "C25", ECF, "    cell_ids = ids[col.cat.codes.to_numpy()]\n    return names + [hashlib.sha256(cell_ids.tobytes()).hexdigest()]\n", "    return names\n")
 
 # rules written after the sixth seeding round
 v("c22-switch-read-when-decorating", "C22", DS, "        type_check_self = self\n", "        if not SchemaCheckSwitch().is_on():\n            return type_check_fn\n        type_check_self = self\n")
@@ -1205,5 +1201,20 @@ v("c27-sort-skipped-when-monotonic", "C27", PB, "            if len(order_cols) 
 v("c18-sort-skipped-when-monotonic", "C18", PB, "            if len(order_cols) > 0:\n                # order by partition and order columns only", "            if not subframe[order_cols].apply(tuple, axis=1).is_monotonic_increasing:\n                # order by partition and order columns only")
 
 v("d171-view-names-not-counted", "C15", SM, "            view_name = getattr(cursor, \"view_name\", None)\n            if isinstance(view_name, str):\n                user_names.append(view_name)\n", "")
-v("d172-xicor-scratch-unchecked", "C15", SOL, "    assert \"_da_xicor_tmp_order\" not in d_col_set\n", "")
+v("d172-xicor-scratch-unchecked", "C15", SOL, "    assert \"_da_xicor_tmp_order\" not in (x_vars + [y_name])\n", "")
 v("d173-polars-selector-names-unrefused", "C15", PM, "                if (c == \"*\") or (c.startswith(\"^\") and c.endswith(\"$\")):\n                    raise ValueError(\n                        f\"Polars would read the column name {repr(c)} as a selector\"\n                    )\n", "                pass\n")
+
+# regression round 6
+v("d174-numeric-branch-made-object", "C05", PB, "    if getattr(dtype, \"kind\", \"O\") in \"iufcmM\":\n        return x\n", "")
+v("d174-is-in-numpy-path-unmasked", "C05", PB, "    if hasattr(a, \"isna\"):\n        # a missing entry is in no set (a None in the list is no exception)\n        res = res & (~numpy.asarray(a.isna(), dtype=bool))\n", "")
+v("d175-zero-dim-array-refused", "C12", ER2, "                and (getattr(vi, \"ndim\", 0) == 0)\n", "                and (not hasattr(vi, \"__len__\"))\n")
+v("d179-dict-zero-dim-array-refused", "C12", ER2, "                and (getattr(v, \"ndim\", 0) == 0)\n", "                and (not hasattr(v, \"__len__\"))\n")
+v("d176-named-method-returns-notimplemented", "C24", OSF, "        iter(other)  # TypeError for what can not be iterated (None is not the empty set)\n", "        if not isinstance(other, Iterable):\n            return NotImplemented\n")
+v("d177-category-codes-hashed-raw", "C25", ECF, "    cell_ids = ids[col.cat.codes.to_numpy()]\n    return names + [hashlib.sha256(cell_ids.tobytes()).hexdigest()]\n", "    return names + [hashlib.sha256(col.cat.codes.to_numpy().tobytes()).hexdigest()]\n")
+
+v("c05-generic-remainder-truncates", "C05", SM, "    return f\"({e0} - FLOOR({e0} / (1.0 * {e1})) * {e1})\"", "    return f\"MOD({e0}, {e1})\"")
+
+# rules written after the seventh seeding round
+v("c07-leaves-substituted-in-a-loop", "C07", VR, "                return self.replace_leaves(data_map)\n", "                res_ops = self\n                for k_, v_ in data_map.items():\n                    res_ops = res_ops.replace_leaves({k_: v_})\n                return res_ops\n")
+v("c03-polars-select-only-when-extra-columns", "C03", PM, "        data = data.select(blocks_in.block_columns)\n", "        if len(data.columns) != len(blocks_in.block_columns):\n            data = data.select(blocks_in.block_columns)\n")
+v("c17-polars-select-only-when-extra-columns", "C17", PM, "        data = data.select(blocks_in.block_columns)\n", "        if len(data.columns) != len(blocks_in.block_columns):\n            data = data.select(blocks_in.block_columns)\n")
